@@ -32,3 +32,97 @@ def adjacentKindsDiffer : List TimeRange → Bool
   | _ => true
 
 end OH.Spec
+
+namespace OH.Spec
+open OH.Model OH.Model.Cal
+
+/-! ### C02 / C03 / C08: the interval stream against the daily schedules -/
+
+/-- the days on which an interval `[a, b)` (instants) is checked against the daily schedules: all
+of them when there are at most `dense`, otherwise the first and last three and `spread` evenly
+spaced ones (the choice is deterministic, so a replay checks the same days) -/
+def daysToCheck (a b : Int) (dense spread : Nat) : List Int :=
+  let d0 := instDay a
+  let d1 := instDay (b - 1)
+  let n := (d1 - d0 + 1).toNat
+  if n ≤ dense then (List.range n).map (fun (i : Nat) => d0 + (i : Int))
+  else
+    ([0, 1, 2] : List Int).map (d0 + ·) ++ ([0, 1, 2] : List Int).map (d1 - ·) ++
+      (List.range spread).map (fun (i : Nat) => d0 + 3 + ((n - 6 : Nat) : Int) * (i : Int) / (spread : Int))
+
+/-- every range of day `d`'s schedule `rs` that meets the instant interval `[a, b)` has kind `k` -/
+def dayAgrees (d : Int) (rs : List TimeRange) (a b : Int) (k : Kind) : Bool :=
+  rs.all (fun r =>
+    let rs' := mkInstant d r.s
+    let re := mkInstant d r.e
+    -- ranges disjoint from [a, b) are irrelevant
+    (re ≤ a || b ≤ rs') || r.kind == k)
+
+/-- first day of `days` whose schedule (given by `sched`) contradicts kind `k` on `[a, b)` -/
+def firstBadDay (sched : Int → Option (List TimeRange)) (a b : Int) (k : Kind) (days : List Int) : Option Int :=
+  days.find? (fun d => match sched d with | some rs => !(dayAgrees d rs a b k) | none => false)
+
+/-- structural clauses of C02 for the stream `out` of the window `[frm, to)`; returns the name of the
+first clause that fails -/
+def c02Structure (frm to : Int) (out : List Interval) : Option String :=
+  let f := min frm instEnd
+  let l := min to instEnd
+  if f ≥ l then (if out.isEmpty then none else some "nonempty-for-empty-window")
+  else match out with
+    | [] => some "empty-for-nonempty-window"
+    | i0 :: _ =>
+      if i0.start != f then some "first-start"
+      else if (out.getLast?.map (·.stop)) != some l then some "last-stop"
+      else if out.any (fun i => !(i.start < i.stop)) then some "empty-interval"
+      else
+        let rec chk : List Interval → Option String
+          | a :: b :: rest =>
+            if a.stop != b.start then some "gap-or-overlap"
+            else if a.kind == b.kind then some "adjacent-same-kind"
+            else chk (b :: rest)
+          | _ => none
+        chk out
+
+/-- pointwise clause of C02: every interval has the kind the daily schedules give inside it -/
+def c02Pointwise (sched : Int → Option (List TimeRange)) (out : List Interval) : Option (Int × Interval) :=
+  out.findSome? (fun i =>
+    (firstBadDay sched i.start i.stop i.kind (daysToCheck i.start i.stop 45 12)).map (·, i))
+
+/-- kind the daily schedule `rs` of `t`'s day gives to instant `t` -/
+def kindAtInstant (rs : List TimeRange) (t : Int) : Option Kind := kindAt rs (instMinuteOfDay t)
+
+/-! ### C17: comments -/
+
+def strictlySorted : List String → Bool
+  | a :: b :: rest => a < b && strictlySorted (b :: rest)
+  | _ => true
+
+/-- periods (minute ranges of day `d`) that rule `r` contributes according to the specification -/
+def rulePeriods (ctx : Ctx) (r : Rule) (d : Int) : List (Nat × Nat) :=
+  (if applies ctx r d then (r.time.map (spanOn ctx d)).filterMap (fun se => if se.1 < min se.2 1440 then some (se.1, min se.2 1440) else none) else []) ++
+  (if applies ctx r (d - 1) then (r.time.map (spanOn ctx (d - 1))).filterMap (fun se => if max se.1 1440 < se.2 then some (max se.1 1440 - 1440, se.2 - 1440) else none) else [])
+
+/-- the comment clauses of C17 for the iterated schedule `rs` of day `d`; name of the first failing clause -/
+def c17Day (ctx : Ctx) (e : Expr) (d : Int) (rs : List TimeRange) : Option String :=
+  let inRange := dateStart ≤ d ∧ d < dateEnd
+  let contributing := e.filter (fun r => applies ctx r d || applies ctx r (d - 1))
+  let all := e.flatMap (·.comments)
+  if rs.any (fun r => !(strictlySorted r.comments)) then some "sorted-unique"
+  else if rs.any (fun r => r.comments.any (fun c => !(all.contains c))) then some "from-expression"
+  -- the remaining clauses speak about which rules apply: they need every dated range of the
+  -- expression to have a defined meaning (`exprDefined`) inside the pairing window (D20)
+  else if !(exprDefined e) || exprWindowRisk e then none
+  else if rs.any (fun r => r.comments.any (fun c => !(contributing.any (fun ru => ru.comments.contains c)))) then some "provenance"
+  else if (!inRange || contributing.isEmpty) && rs.any (fun r => !r.comments.isEmpty) then some "empty-outside"
+  else if !inRange then none
+  else
+    -- a non-closed period touched or overlapped by the periods of exactly one rule carries exactly its comments
+    let per := e.map (fun r => (r, rulePeriods ctx r d))
+    if rs.any (fun r =>
+        r.kind != .closed &&
+        (match per.filter (fun rp => rp.2.any (fun p => p.1 ≤ r.e && r.s ≤ p.2)) with
+         | [(ru, _)] => r.comments != ru.comments
+         | _ => false)) then some "single-rule-exact"
+    else none
+
+end OH.Spec
